@@ -77,6 +77,41 @@ func TestC01(t *testing.T) {
 	s := hx.Start(t, "C01")
 	defer s.Finish()
 	s.Guard(func() { Cfg() })
+	// forced shapes that a drawn size rarely reaches: a multiple of 256 openings at ONE index, and opening counts around the
+	// window thresholds of the verifier's MSM (49, 129, 321, 769, 1793; 4097 in the thorough tier)
+	many := func(total, atOne, z int, kind string) openSet {
+		os := openSet{Label: "many", Shape: fmt.Sprintf("forced:%d@%d/%d", atOne, z, total), Polys: []polySpec{{Kind: kind, Seed: uint64(hx.Shard() + 1)}, {Kind: "sparse", Seed: 9, Idx: []int{3, 77, 200}}}}
+		for i := 0; i < total; i++ {
+			o := opening{Poly: i % 2, Z: z}
+			if i >= atOne {
+				o.Z = (z + 1 + i) & 255
+			}
+			if i%5 == 4 {
+				o.Share = i - 1 // reuse the pointer of the previous opening of the same polynomial
+				o.Poly = (i - 2) % 2
+			}
+			os.Open = append(os.Open, o)
+		}
+		for i := range os.Open { // shared pointers must refer to an opening of the same polynomial
+			if sh := os.Open[i].Share; sh > 0 {
+				os.Open[i].Poly = os.Open[sh-1].Poly
+			}
+		}
+		return os
+	}
+	forced := []openSet{many(256, 256, 7, "dense"), many(296, 256, 200, "ramp"), many(525, 512, 0, "dense"), many(257, 255, 31, "dense")}
+	thresholds := []int{49, 129, 321, 769, 1793}
+	if hx.Thorough() {
+		thresholds = append(thresholds, 4097)
+	}
+	for i, th := range thresholds {
+		forced = append(forced, many(th-1+i%2, 3, 100, "dense"))
+	}
+	for i, f := range forced {
+		if hx.Thorough() || hx.Sharded(i) {
+			c01Part.EvalCase(s, f)
+		}
+	}
 	c01Part.Run(s, hx.PerShard(hx.Pick(1600, 16000)))
 }
 
@@ -177,7 +212,8 @@ func evalC03(c c03Case, rec *hx.Rec) error {
 	if err != nil {
 		return err
 	}
-	if err := prove("second run (re-represented commitments)", b2); err != nil {
+	b2.fs, b2.polysFr = b.fs, b.polysFr // the very same polynomial objects the first call was given
+	if err := prove("second run (same polynomial objects, re-represented commitments)", b2); err != nil {
 		return err
 	}
 	if dz >= 2 {
